@@ -645,14 +645,20 @@ func buildEnv(c *EvalCase) (*evalEnv, bool) {
 
 const evalTimeout = 10 * time.Second
 
+// hung is set once an evaluation (or a decode) did not come back in time: the leaked goroutine keeps spinning, so
+// the remaining cases of this run are not executed (they are answered with the same "non-termination" marker and the
+// run reports the first hanging case).
+var hung bool
+
 // runGo evaluates the case with the real library and encodes what was observed (Wire.v e_outcome).
 func runGo(c *EvalCase) *T {
-	env, ok := buildEnv(c)
-	if !ok {
-		return L(A(98))
+	if hung {
+		return L(A(3), S("skipped: an earlier case did not terminate"))
 	}
 	type out struct {
 		res      evaluation.Result
+		env      *evalEnv
+		ok       bool
 		panicked interface{}
 	}
 	ch := make(chan out, 1)
@@ -664,15 +670,22 @@ func runGo(c *EvalCase) *T {
 			}
 			ch <- o
 		}()
-		o.res = env.ev.Evaluate(env.top, env.ctx, env.recorder)
+		o.env, o.ok = buildEnv(c)
+		if o.ok {
+			o.res = o.env.ev.Evaluate(o.env.top, o.env.ctx, o.env.recorder)
+		}
 	}()
 	select {
 	case o := <-ch:
 		if o.panicked != nil {
 			return L(A(2), S(fmt.Sprint(o.panicked)))
 		}
-		return L(A(1), wireDetail(o.res.Detail), Ab(o.res.IsExperiment), LL(env.log.items))
+		if !o.ok {
+			return L(A(98))
+		}
+		return L(A(1), wireDetail(o.res.Detail), Ab(o.res.IsExperiment), LL(o.env.log.items))
 	case <-time.After(evalTimeout):
+		hung = true
 		return L(A(3))
 	}
 }
